@@ -163,7 +163,10 @@ type c31Manager struct {
 }
 
 func (m *c31Manager) Add(t persistedretry.Task) error {
-	m.g.park("add")
+	if r := m.g.park("add"); !r.up {
+		// oracle "Add fails": the task table does not answer (database locked, manager closing)
+		return fmt.Errorf("store: database is locked")
+	}
 	err := m.real.Add(t)
 	m.g.park("added")
 	return err
@@ -805,7 +808,12 @@ func (c *c31Case) advance(th *c31Thr, up bool) {
 				bad()
 			}
 		case "add":
-			if to != "added" {
+			if !up && to == "done" && th.status != 200 && th.status != 409 {
+				c.stepOp(th, up, "RErr", "up-add-fails")
+				c.nFault++
+				return
+			}
+			if to != "added" || !up {
 				bad()
 				return
 			}
@@ -1324,6 +1332,20 @@ func c31Seeds() []struct {
 		{"seed-crash-after-move", false, []c31Act{
 			{A: "upcrash", Ns: 0, D: 0}, {A: "del", D: 0, M: "http"}, {A: "upcrash", Ns: 0, D: 0},
 			{A: "up", Ns: 0, D: 0}, {A: "run", T: 2}, {A: "del", D: 0}}},
+		// Add fails on the conflict path of an already acknowledged blob whose row is pending: the flag
+		// set by the earlier commit must survive (cleanup, forced cleanup with the backend down, DELETE)
+		{"seed-add-fails-on-conflict", false, []c31Act{
+			{A: "up", Ns: 0, D: 0}, {A: "run", T: 0}, {A: "ex", Ns: 0, D: 0}, {A: "run", T: 1, Up: f},
+			{A: "up", Ns: 0, D: 0}, {A: "step", T: 2}, {A: "step", T: 2, Up: f},
+			{A: "del", D: 0}, {A: "fc", D: 0}, {A: "run", T: 3, Up: f}, {A: "del", D: 0, M: "http"},
+			{A: "ex", Ns: 0, D: 0}, {A: "run", T: 4}, {A: "del", D: 0}}},
+		// Add fails on a first commit: not acknowledged, flag leaked, nothing lost
+		{"seed-add-fails-first-commit", false, []c31Act{
+			{A: "up", Ns: 0, D: 0}, {A: "step", T: 0}, {A: "step", T: 0, Up: f}, {A: "del", D: 0},
+			{A: "up", Ns: 0, D: 0}, {A: "run", T: 1}, {A: "del", D: 0}}},
+		{"seed-add-fails-on-conflict-lru", true, []c31Act{
+			{A: "up", Ns: 0, D: 0}, {A: "run", T: 0}, {A: "up", Ns: 0, D: 0}, {A: "step", T: 1}, {A: "step", T: 1, Up: f},
+			{A: "del", D: 0, M: "lru"}, {A: "ex", Ns: 0, D: 0}, {A: "run", T: 2}}},
 		// deletion between the move and the persist flag: the commit fails, nothing acknowledged
 		{"seed-two-digests", false, []c31Act{
 			{A: "up", Ns: 0, D: 0}, {A: "up", Ns: 1, D: 1}, {A: "step", T: 0}, {A: "step", T: 1, N: 2},
@@ -1365,6 +1387,9 @@ func c31Random(rng *hl.Rng, tier string, lru bool) func(c *c31Case) {
 			switch {
 			case len(l) > 0 && r < 45:
 				th := l[rng.Intn(len(l))]
+				if th.kind == "up" && !up && rng.Chance(60) {
+					up = true
+				}
 				if rng.Chance(50) {
 					c.perform(c31Act{A: "run", T: th.id, Up: &up})
 				} else {
